@@ -36,6 +36,13 @@ const (
 	evT7Timeout                      // T7 NOT-SELECTED dwell expired: NotSelected -> NotConnected (no-op otherwise)
 )
 
+// stateClosedBit is OR-ed into the atomic state word by step() when it latches evClose. State()
+// masks it out (the word then reads NotConnected), but the three synchronous commits CAS on the
+// PLAIN state values, so once the supervisor is closed no commit can succeed: a TCP-up racing a
+// Close (a reconnect Start that completes after the close step) can no longer move State() off
+// NotConnected after Close has returned.
+const stateClosedBit uint32 = 1 << 8
+
 // stateChange is one logical E37 transition, reported to the notifier as (prev -> next).
 type stateChange struct {
 	prev ConnState
@@ -175,7 +182,7 @@ func transition(cur ConnState, ev fsmEvent) (ConnState, bool) {
 
 // State returns the current logical E37 state via a lock-free atomic read.
 func (s *supervisor) State() ConnState {
-	return ConnState(s.state.Load())
+	return ConnState(s.state.Load() &^ stateClosedBit)
 }
 
 // CommitConnected performs the synchronous TCP-up commit (symmetric with CommitSelected / §7.D):
@@ -278,7 +285,7 @@ func (s *supervisor) step(ev fsmEvent) {
 		return
 	}
 
-	cur := ConnState(s.state.Load())
+	cur := ConnState(s.state.Load() &^ stateClosedBit)
 
 	// Test seam (T24b): lets a test deterministically interpose a concurrent CommitSelected between
 	// the state.Load() above and the evT7Timeout CAS below, exercising the tie the CAS closes. nil in
@@ -325,7 +332,11 @@ func (s *supervisor) step(ev fsmEvent) {
 
 	if ev == evClose {
 		// Latch closed (I2) BEFORE teardown: no event queued behind this evClose may move state again.
+		// The store is unconditional (not only when the loaded state differed) and carries
+		// stateClosedBit, so a commit that landed between the load above and here is overridden and
+		// every later commit's CAS fails — State() stays NotConnected once Close has been processed.
 		s.closed = true
+		s.state.Store(uint32(NotConnectedState) | stateClosedBit)
 		if e := s.closeEpoch.Load(); e != nil {
 			e.teardown(s.resolveCloseTimeout())
 		}
